@@ -7,7 +7,7 @@
    script up to and including the first exchange in which the client or the
    origin asked to close ([wants_close]). *)
 From Coq Require Import List NArith Bool Arith Ascii String.
-From Martian.C01 Require Import Model Proofs.
+From Martian.C01 Require Import Model Proofs Proofs_Sched.
 Import ListNotations.
 
 (* Exactly one forwarded request and one response per served exchange, in
@@ -101,6 +101,59 @@ Theorem C01_oracle_is_the_property : forall es o,
 Proof. exact c01_ok_iff. Qed.
 Print Assumptions C01_oracle_is_the_property.
 
+(* The clause oracles the driver evaluates (request_preserved /
+   one_request_per_exchange, response_preserved / one_response_per_request,
+   keepalive) are, one by one, the Prop-level clauses; a count mismatch fails
+   them; a passing observation contains no response the client could not frame. *)
+Theorem C01_request_oracle_is_the_clause : forall es o,
+  c01_req_ok es o = true <-> Forall2 req_preserved_x (served es) (origin_saw o).
+Proof. exact c01_req_ok_iff. Qed.
+Print Assumptions C01_request_oracle_is_the_clause.
+
+Theorem C01_response_oracle_is_the_clause : forall es o,
+  c01_res_ok es o = true <-> Forall2 res_preserved (map resp_of (served es)) (client_got o).
+Proof. exact c01_res_ok_iff. Qed.
+Print Assumptions C01_response_oracle_is_the_clause.
+
+Theorem C01_close_oracle_is_the_clause : forall es o,
+  c01_close_ok es o = true <-> closed o = existsb wants_close es.
+Proof. exact c01_close_ok_iff. Qed.
+Print Assumptions C01_close_oracle_is_the_clause.
+
+Theorem C01_oracles_count_exchanges : forall es o,
+  (c01_req_ok es o = true -> List.length (origin_saw o) = List.length (served es)) /\
+  (c01_res_ok es o = true -> List.length (client_got o) = List.length (served es) /\
+                             Forall (fun c => c_complete c = true) (client_got o)).
+Proof. exact oracles_count_exchanges. Qed.
+Print Assumptions C01_oracles_count_exchanges.
+
+(* "Sent one at a time or pipelined": for EVERY arrival schedule of the client's
+   requests (each request may arrive at any time relative to the proxy's
+   progress, in one piece or in several), assuming only that handleLoop serves
+   one request at a time (LServe is atomic: handle for request i+1 starts after
+   handle for request i returned), what has been forwarded and answered so far
+   is a prefix of the sequential run, and when nothing is left to do it is
+   exactly the sequential run: pipelining changes nothing. *)
+Theorem C01_pipelining_changes_nothing : forall es ls st,
+  srun (h01 false id_body) (sinit es) ls = Some st ->
+  (exists rest, origin_saw (run es) = map fst (s_out st) ++ map fst rest /\
+                client_got (run es) = map snd (s_out st) ++ map snd rest) /\
+  (quiescent st ->
+     map fst (s_out st) = origin_saw (run es) /\
+     map snd (s_out st) = client_got (run es) /\
+     s_closed st = closed (run es)).
+Proof. exact pipelining_changes_nothing. Qed.
+Print Assumptions C01_pipelining_changes_nothing.
+
+(* the same for any connection loop of that shape (used by C03) *)
+Theorem C01_schedule_theorem_generic : forall (E O : Type) (h : E -> O * bool) es ls st,
+  srun h (sinit es) ls = Some st ->
+  (exists rest, fst (loop_run h es) = s_out st ++ rest) /\
+  (s_closed st = true -> (s_out st, true) = loop_run h es) /\
+  (quiescent st -> (s_out st, s_closed st) = loop_run h es).
+Proof. exact schedule_theorem_generic. Qed.
+Print Assumptions C01_schedule_theorem_generic.
+
 (* Non-vacuity: a script that satisfies the guard, with a repeated mixed-case
    header, hop-by-hop noise, a nominated header, a closing exchange in the
    middle and an exchange after it that must not be served. *)
@@ -125,3 +178,17 @@ Example C01_example :
   map (fun w => vals (s "x-a") (w_hdrs w)) (origin_saw (run example_script)) = [[s "1"; s "2"]; []] /\
   map (fun w => vals (s "host") (w_hdrs w)) (origin_saw (run example_script)) = [[s "ORIGIN"]; [s "ORIGIN"]].
 Proof. vm_compute. repeat split; reflexivity. Qed.
+
+(* Non-vacuity of the schedule theorem: the example script delivered fully
+   pipelined, with a request arriving in pieces, reaches a quiescent state (the
+   second exchange closes; the third, although it arrived, is never served). *)
+Example C01_schedule_example :
+  exists st, srun (h01 false id_body) (sinit example_script)
+                  [LArrive; LPartial; LArrive; LArrive; LServe; LPartial; LServe] = Some st /\
+             quiescent st /\ List.length (s_out st) = 2 /\ s_closed st = true /\ List.length (s_pending st) = 1.
+Proof. eexists. split; [vm_compute; reflexivity|]. vm_compute. repeat split; auto. Qed.
+
+(* ... and a schedule that is not allowed (serving before anything arrived) is not a schedule *)
+Example C01_schedule_serve_needs_arrival :
+  srun (h01 false id_body) (sinit example_script) [LServe] = None.
+Proof. reflexivity. Qed.
